@@ -39,9 +39,19 @@
   `downgrade_hash_congr`, `reprM_congr`, `box_downgrade_spec`, `reprBoxM_eq`; as far as true:
   `downgraded_repr_not_inj` (the printed form of a downgraded value with adjoint types does not
   determine it: finding F43b), so `repr_inj` is NOT claimed for downgraded values.
+
+  PRO types (round 5): the classes `monoidal.PRO` / `rigid.PRO` (Model/ReprPRO.lean) define only
+  `__init__`, `upgrade` and `__repr__` (`PRO(n)`); `==` and `hash` are `monoidal.Ty`'s (the objects;
+  `hash(repr(self))`).  `pro_eq_iff` (PRO(m) == PRO(n) iff m = n), `reprPRO_congr` / `pro_hash_congr`
+  (equal PRO types print and hash alike), `reprPRO_inj` (the printed form determines the type, no
+  hygiene hypothesis needed: the only token is an int), `pro_tensor`, `pro_slice` (the derived values
+  stay in the class: `upgrade` never raises on them).  That `hash()` is DEFINED on the class at all
+  (a Python class that overrides `__eq__` without `__hash__` is unhashable) is not a statement about
+  values: it is checked by the oracle on every PRO value the check builds.
 -/
 import Proofs.ReprString
 import Proofs.Downgrade
+import Proofs.ReprPRO
 
 namespace DV.C03
 open DV
@@ -283,5 +293,32 @@ example : D3.TokensSafe := by
 -- list-valued data is outside the hygiene hypothesis (it has a comma and brackets of its own)
 example : ¬ SafeTok "[1, 2]" := by
   intro hs; have := hs.2 '[' (by decide); revert this; decide
+
+/-! ### PRO types (monoidal.PRO, rigid.PRO) -/
+
+/-- `PRO(m) == PRO(n)` exactly when they have the same number of wires. -/
+theorem pro_eq_iff (m n : Nat) : proTy m = proTy n ↔ m = n := proTy_eq_iff m n
+
+/-- Equal PRO values print alike ... -/
+theorem reprPRO_congr (s t : Ty) (h : s = t) : reprPRO s = reprPRO t := DV.reprPRO_congr h
+
+/-- ... hence hash alike, for any string hash (`monoidal.Ty.__hash__ = hash(repr(self))`). -/
+theorem pro_hash_congr {α} (H : String → α) (m n : Nat) (h : proTy m = proTy n) :
+    H (reprPRO (proTy m)) = H (reprPRO (proTy n)) := by rw [h]
+
+/-- The printed form `PRO(n)` determines the type. -/
+theorem reprPRO_inj (m n : Nat) (h : reprPRO (proTy m) = reprPRO (proTy n)) : proTy m = proTy n :=
+  (proTy_eq_iff m n).mpr (DV.reprPRO_inj h)
+
+/-- Tensor and slices of PRO types are PRO types again (`upgrade` finds only objects named 1). -/
+theorem pro_tensor (m n : Nat) : proTensor m n = .ok (m + n) := proTensor_eq m n
+theorem pro_slice (n : Nat) (i j : Option Int) :
+    proSlice n i j = .ok (pySlice (proTy n) i j).length := proSlice_ok n i j
+
+example : reprPRO (proTy 12) = "PRO(12)" := by decide
+example : proSlice 5 (some 1) (some (-1)) = .ok 3 := by decide
+example : proTy 2 ≠ proTy 3 := by decide
+-- a type with a foreign object is refused by `PRO.upgrade` (monoidal.py:219-221)
+example : proUpgrade [proOb, ⟨"'x'", 0⟩] = .error .type := by decide
 
 end DV.C03
